@@ -476,3 +476,33 @@ benign(
 )
 benign("B-multi-output-ge-2", ["C02"], (OPT, "        len(list(successors_unordered(dag, pre))) > 1\n", "        len(list(successors_unordered(dag, pre))) >= 2\n"))
 benign("B-generator-for-iter-tuple", ["C03", "C15"], (OPS, "            iter(tuple(ChunkKey(x.name, cp.chunk_coords) for cp in indexer)),", "            (ChunkKey(x.name, cp.chunk_coords) for cp in indexer),"))
+
+# ---------------------------------------------------------------- C03 (memory model)
+MEMPY = "cubed/primitive/memory.py"
+mutant("M19-model-drops-input-copy", ["C03"], "MEM-MODEL-1", (MEMPY, "        projected_mem += input * buffer_copies.read\n        projected_mem += input\n", "        projected_mem += input * buffer_copies.read\n"))
+mutant("M20-model-output-write-only", ["C03"], "MEM-MODEL-1", (MEMPY, "    projected_mem += output\n    projected_mem += output * buffer_copies.write\n", "    projected_mem += output * buffer_copies.write\n"))
+mutant("M21-model-without-reserved", ["C03"], "MEM-MODEL-1", (MEMPY, "    projected_mem = reserved_mem\n", "    projected_mem = 0\n"))
+mutant("M21b-model-drops-operation", ["C03"], "MEM-MODEL-1", (MEMPY, "    projected_mem += operation\n", ""))
+mutant("M21c-model-subtracts", ["C03"], "MEM-MODEL-1", (MEMPY, "    projected_mem += operation\n", "    projected_mem += operation\n    projected_mem -= reserved_mem\n"))
+mutant("M22-inputs-first-only", ["C03"], "MEM-CALL-1", (PBW, "            array_memory(array.dtype, largest_chunk(array.chunks)) for array in arrays\n", "            array_memory(array.dtype, largest_chunk(array.chunks)) for array in arrays[:1]\n"))
+mutant("M22b-output-last-only", ["C03"], "MEM-CALL-1", (PBW, "        output_chunk_memory = max(\n            output_chunk_memory, array_memory(dtypes[i], chunksize)\n        )", "        output_chunk_memory = array_memory(dtypes[i], chunksize)"))
+mutant("M22c-extra-not-forwarded", ["C03"], "MEM-CALL-1", (PBW, "        operation=extra_projected_mem,\n", "        operation=0,\n"))
+mutant("M22d-ops-drops-extra", ["C03"], "MEM-CALL-1", (OPS, "        reserved_mem=spec.reserved_mem,\n        extra_projected_mem=extra_projected_mem,\n        buffer_copies=buffer_copies,", "        reserved_mem=spec.reserved_mem,\n        buffer_copies=buffer_copies,"))
+mutant("M23-fuse-no-max", ["C03", "C04"], "MEM-FUSEMAX-1", (PBW, "    projected_mem = max(primitive_op1.projected_mem, primitive_op2.projected_mem)", "    projected_mem = primitive_op2.projected_mem"))
+mutant("M24-fuse-multiple-min", ["C03", "C04"], "MEM-FUSEMAX-1", (PBW, "    projected_mem = max(\n        primitive_op.projected_mem,\n        peak_projected_mem(p for p in predecessor_primitive_ops if p is not None),\n    )", "    projected_mem = min(\n        primitive_op.projected_mem,\n        peak_projected_mem(p for p in predecessor_primitive_ops if p is not None),\n    )"))
+mutant("M25-peak-frees-everything", ["C03", "C04"], "MEM-FUSEMAX-1", (PBW, "        memory_modeller.free(p.projected_mem - chunkmem)", "        memory_modeller.free(p.projected_mem)"))
+mutant("M25b-peak-skips-allocate", ["C03", "C04"], "MEM-FUSEMAX-1", (PBW, "        memory_modeller.allocate(p.projected_mem)\n", "        if p.fusable_with_predecessors:\n            memory_modeller.allocate(p.projected_mem)\n"))
+mutant("M25c-modeller-peak-not-updated", ["C03", "C04"], "MEM-FUSEMAX-1", (MEMPY, "        self.current_mem += num_bytes\n        self.peak_mem = max(self.peak_mem, self.current_mem)\n\n    def free", "        self.current_mem += num_bytes\n\n    def free"))
+mutant("M25d-peak-first-preds-only", ["C03", "C04"], "MEM-FUSEMAX-1", (PBW, "        peak_projected_mem(p for p in predecessor_primitive_ops if p is not None),\n    )\n    allowed_mem = primitive_op.allowed_mem", "        peak_projected_mem(p for p in predecessor_primitive_ops[:1] if p is not None),\n    )\n    allowed_mem = primitive_op.allowed_mem"))
+mutant("M85-extra-mem-element-count", ["C03"], "MEM-UNITS-1", (OPS, "    extra_projected_mem = x.chunkmem + 2 * array_memory(dtype, to_chunksize(chunks))", "    extra_projected_mem = math.prod(x.chunksize) + 2 * math.prod(to_chunksize(chunks))"))
+benign(
+    "B-model-as-single-sum",
+    ["C03"],
+    (
+        MEMPY,
+        "    projected_mem = reserved_mem\n\n    for input in inputs:\n        projected_mem += input * buffer_copies.read\n        projected_mem += input\n\n    projected_mem += operation\n\n    projected_mem += output\n    projected_mem += output * buffer_copies.write\n\n    return projected_mem",
+        "    return (\n        reserved_mem\n        + sum(i * (1 + buffer_copies.read) for i in inputs)\n        + operation\n        + output * (1 + buffer_copies.write)\n    )",
+    ),
+)
+benign("B-total-copies-rewritten", ["C03"], (OPS, "    total_copies = 1 + buffer_copies.read + 1 + 1 + buffer_copies.write", "    total_copies = 3 + buffer_copies.read + buffer_copies.write"))
+benign("B-inline-get-results", ["C03", "C06"], (PBW, "def get_results_in_different_scope(out_coords: list[int], *, config: BlockwiseSpec):", "def get_results_in_different_scope(out_coords: list[int], *, config: BlockwiseSpec):\n    # renamed helper semantics unchanged"))
